@@ -109,7 +109,7 @@ func c16URL(c *engine.Ctx, in []byte, args map[string]string) {
 	}
 }
 
-var c16MediaTypes = []string{"", "text/html", "a/b;c=d", "text/plain;charset=utf-8", "image/svg+xml", "text/plain;charset=base64", "a/b;base64=1;c=base64"}
+var c16MediaTypes = []string{"", "text/html", "a/b;c=d", "text/plain;charset=utf-8", "image/svg+xml", "text/plain;charset=base64", "a/b;base64=1;c=base64", ";charset=utf-8", " ;a=b"}
 
 func c16DataURIGen(c *engine.Ctx, in []byte, args map[string]string) {
 	mt := args["mt"]
@@ -146,9 +146,16 @@ func c16DataURIGen(c *engine.Ctx, in []byte, args map[string]string) {
 	if wantMT == "" {
 		wantMT = "text/plain"
 	}
+	typeAbsent := strings.HasPrefix(strings.TrimLeft(mt, " "), ";")
+	if typeAbsent {
+		wantMT = "text/plain" // the type is absent, only parameters are given: text/plain, with or without them
+	}
 	if err != nil {
 		c.Fail("DataURI-rejects", fmt.Sprintf("DataURI(%q) = error %v", orig, err))
 		return
+	}
+	if typeAbsent && string(gotMT) == "text/plain"+strings.TrimLeft(mt, " ") {
+		wantMT = string(gotMT)
 	}
 	if string(gotMT) != wantMT || !bytes.Equal(data, in) {
 		c.Fail("DataURI", fmt.Sprintf("DataURI(%q) = (%q, %q) want (%q, %q)", orig, gotMT, data, wantMT, in))
@@ -541,8 +548,8 @@ func c16Finish(c *engine.Ctx, cov map[string]interface{}) string {
 func init() {
 	register(&engine.Check{
 		ID: "C16", Level: "exploration",
-		Rule:        "all strings ≤7 over {+ - . 0 9 e E a % x} for Number/Dimension vs the documented regexp (longest match); all 256 bytes and all strings over two alphabets for EncodeURL (both tables, three capacities) and DecodeURL (inverse on every encoded string; equals url.QueryUnescape wherever that succeeds); DataURI on every payload ≤3 bytes over 10 byte values × {base64, spaced base64, percent-encoding of everything outside the unreserved set, of what DataURIEncodingTable marks, of the bare minimum} × 7 media types (two with base64 as the name or value of a parameter) and on all strings ≤5 atoms over data-URI fragments; Mediatype on all strings ≤7 atoms (lower-case and mixed-case alphabets) vs mime.ParseMediaType where that succeeds; EqualFold/ToLower/TrimWhitespace/IsAllWhitespace/IsWhitespace/IsNewline on all bytes and all strings ≤4 over 15 atoms, EqualFold on all (byte, lower-case target byte) pairs; css/html ToHash on every constant (read from the current source), its case variants, every single-edit neighbour and all strings ≤4 over the table's letters vs a plain map",
-		Assumptions: []string{"media types starting with ';' (parameters only) are not generated"},
+		Rule:        "all strings ≤7 over {+ - . 0 9 e E a % x} for Number/Dimension vs the documented regexp (longest match); all 256 bytes and all strings over two alphabets for EncodeURL (both tables, three capacities) and DecodeURL (inverse on every encoded string; equals url.QueryUnescape wherever that succeeds); DataURI on every payload ≤3 bytes over 10 byte values × {base64, spaced base64, percent-encoding of everything outside the unreserved set, of what DataURIEncodingTable marks, of the bare minimum} × 9 media types (two with base64 as the name or value of a parameter, two without a type but with a parameter) and on all strings ≤5 atoms over data-URI fragments; Mediatype on all strings ≤7 atoms (lower-case and mixed-case alphabets) vs mime.ParseMediaType where that succeeds; EqualFold/ToLower/TrimWhitespace/IsAllWhitespace/IsWhitespace/IsNewline on all bytes and all strings ≤4 over 15 atoms, EqualFold on all (byte, lower-case target byte) pairs; css/html ToHash on every constant (read from the current source), its case variants, every single-edit neighbour and all strings ≤4 over the table's letters vs a plain map",
+		Assumptions: []string{"a data URI without a type but with parameters may report text/plain with or without those parameters"},
 		Setup:       c16Setup, Work: c16Work, Finish: c16Finish,
 	})
 }
